@@ -27,11 +27,17 @@ def jobs(seed=0):
                 ["init_reim_to_znx64_precomp", "reim_to_znx64"], "S4", extra={"LOG2BOUND": lb, "GLANE": lane},
                 tier="quick" if lane == 0 else "thorough")
     TN = ["reim/reim_to_tnx_ref.c", "reim/reim_to_tnx_avx.c"] + COMMONS
+    # quick: boundary / typical log2overhead values; thorough: every log2overhead 0..48 (reference kernel, lane 0; AVX kernel, one
+    # lane rotating with log2overhead so that all eight lane positions are visited; all lanes at 0, 29, 48)
     for ovh in range(0, 49):
         for lane in (0, 1):
+            if lane == 1 and ovh not in (29, 48):
+                continue
             add("conv.to_tnx.ref.ovh%02d.lane%d" % (ovh, lane), "h_to_tnx", TN, 0, 1, ["reim_to_tnx_ref", "init_reim_to_tnx_precomp"], "S2",
                 extra={"OVH": ovh, "GLANE": lane}, tier="quick" if (ovh in (0, 13, 28, 29, 40, 48) and lane == 0) or (ovh in (29, 48)) else "thorough")
         for lane in range(8):
+            if ovh not in (0, 29, 48) and lane != ovh % 8:
+                continue
             add("conv.to_tnx.avx.ovh%02d.lane%d" % (ovh, lane), "h_to_tnx", TN, 1, 4, ["reim_to_tnx_avx", "init_reim_to_tnx_precomp"], "S4",
                 extra={"OVH": ovh, "GLANE": lane}, tier="quick" if (ovh in (0, 29, 48) and lane in (0, 3, 4, 7)) else "thorough")
     add("conv.cplx_from_znx32.ref", "h_cplx_from_znx32", ["cplx/cplx_conversions.c"] + COMMONS, 0, 2, ["cplx_from_znx32_ref"], "S2")
